@@ -88,7 +88,8 @@ func (w *World) randomAct(rng *sim.Rng) Act {
 	vs := w.vaultsView()
 	jit := func(x int64) int64 { return clampPos(x + int64(rng.Intn(3)) - 1) }
 	small := []int64{0, 1, 2, 3, 5, 7, 10, 13, 20, 50}
-	weights := []int{16, 6, 8, 10, 8, 4, 4, 3, 3, 3, 3, 5, 10, 6, 12, 1, 2, 2, 6, 10, 3, 5}
+	// ordinary runs keep the second generation in front (the first generation gets its own biased runs below)
+	weights := []int{16, 6, 8, 10, 8, 4, 4, 3, 3, 3, 3, 6, 18, 6, 12, 1, 2, 3, 2, 4, 1, 2}
 	if w.V1Bias { // runs in which the first generation does most of the liquidating (fewer blocks = fewer V2 sweeps)
 		weights = []int{16, 6, 8, 10, 8, 4, 4, 3, 3, 3, 3, 1, 4, 8, 6, 1, 1, 1, 14, 20, 8, 10}
 	}
@@ -375,9 +376,9 @@ func Main(args []string) int {
 	for r := 0; r < *runs; r++ {
 		cfg := configFor(r+int(*seed), rng)
 		w := Setup(cfg)
-		w.V1Bias = r%3 == 1
+		w.V1Bias = r%4 == 1
 		w.Esm = *esm
-		w.EsmBias = *esm && r%5 == 4
+		w.EsmBias = *esm && r%6 == 5
 		run := fmt.Sprintf("drive:%d:%d", *seed, r)
 		par := rootNode(lg, w, run)
 		root := par
